@@ -336,15 +336,16 @@ Node* NinjaMain::CollectTarget(const char* cpath, string* err) {
     *err = "empty path";
     return NULL;
   }
-  uint64_t slash_bits;
-  CanonicalizePath(&path, &slash_bits);
-
-  // Special syntax: "foo.cc^" means "the first output of foo.cc".
+  // Special syntax: "foo.cc^" means "the first output of foo.cc".  The caret
+  // is not part of the path: take it off before the path is canonicalized.
   bool first_dependent = false;
-  if (!path.empty() && path[path.size() - 1] == '^') {
+  if (path.size() > 1 && path[path.size() - 1] == '^') {
     path.resize(path.size() - 1);
     first_dependent = true;
   }
+
+  uint64_t slash_bits;
+  CanonicalizePath(&path, &slash_bits);
 
   Node* node = state_.LookupNode(path);
   if (!node && !build_dir_.empty()) {
